@@ -47,6 +47,7 @@ ASSUMPTIONS = [
     f"statistical acceptance: |mean - model| <= sqrt(2 V ln(4/d)/K) + 7 ln(4/d)/(3(K-1)) + {BIAS} with d = {ALPHA_FAMILY}/{MAX_COMPARISONS:g} per comparison (Maurer-Pontil empirical Bernstein bound for values in [0,1]); family-wise false-alarm probability <= {ALPHA_FAMILY} per invocation for any VERIF_SEED, given the bias allowance",
     "bias allowance 1e-2 covers the solver's deterministic error (TDVP at precision 1e-6, jump time located to 1 ns); the largest |mean - model| seen is reported as calibration data",
     "pulse phase 0: the drive-phase sign convention is not this property's business",
+    "no-jump decay oracle (white-box, the mechanism the property anchors name): the squared norm of the working state is the survival probability, and `lindblad_ops` are the single-site operators the emulator jumps with; if either attribute is missing the oracle is skipped, not failed",
 ]
 
 
